@@ -147,7 +147,7 @@ SkipNonLead(x, i) == IF i <= Len(x) /\ ~IsLead(x[i]) THEN SkipNonLead(x, i + 1) 
 \* i0: position of the next segment (1-based)
 ImplRel(pl, sc, x, i0) ==
   IF i0 > Len(x) THEN sc
-  ELSE LET i == SkipNonLead(x, i0) IN
+  ELSE LET i == IF Bug = "SkipOnlyBeforeFirstSeg" /\ i0 > 6 THEN i0 ELSE SkipNonLead(x, i0) IN
        IF Len(x) - (i - 1) < 4 THEN 0
        ELSE LET c == ImplChild(pl, pl[sc].first, x, i) IN
             IF c # 0 THEN ImplRel(pl, c, x, i + 4)
@@ -210,7 +210,19 @@ Bodies ==
   \cup {<<47, 2>> \o A4, <<46>> \o A4, <<46>> \o B4, <<47, 2>> \o B4, A4 \o <<46>> \o B4, <<0>>, A4 \o <<0>>,   \* malformed
         <<97, 95, 95, 95>>, <<49, 95, 95, 95>>, A4 \o <<92>>, <<47, 1>> \o A4 \o B4,
         <<94>> \o A4, <<92>> \o A4, <<92>>, <<94>>}                       \* a prefix after a prefix ('\^', '^\', '\\')
-Exprs == {p \o b : p \in Prefixes, b \in Bodies}
+\* a prefix item (0x2E, 0x2F count) in front of each later segment of the 2- and 3-segment paths, with and
+\* without a leading item; trailing items; an embedded count that is a name character (ambiguous, must return)
+Items == {<<46>>, <<47, 1>>, <<47, 2>>}
+Embedded ==
+  {a \o h \o b : a \in Segs, b \in Segs, h \in Items}
+  \cup {<<46>> \o A4 \o h \o b : b \in Segs, h \in Items} \cup {<<47, 2>> \o A4 \o <<46>> \o b : b \in Segs}
+  \cup {A4 \o h \o b \o c : b \in Segs, c \in Segs, h \in {<<46>>, <<47, 2>>}}
+  \cup {A4 \o b \o h \o c : b \in Segs, c \in Segs, h \in {<<46>>, <<47, 1>>}}
+  \cup {A4 \o <<46>> \o b \o <<47, 1>> \o c : b \in Segs, c \in Segs}
+  \cup {<<47, 3>> \o A4 \o <<46>> \o B4 \o <<46>> \o c : c \in Segs}
+  \cup {A4 \o b \o h : b \in Segs, h \in Items} \cup {A4 \o <<46>> \o B4 \o <<46>>, A4 \o <<46>> \o <<66, 95>>}
+  \cup {A4 \o <<47, 65>> \o B4, A4 \o <<47, 66>> \o <<95, 95, 95>>, A4 \o <<47>> \o B4, A4 \o <<46, 46>> \o B4}
+Exprs == {p \o b : p \in Prefixes, b \in Bodies \cup Embedded}
 
 InitFind ==
   /\ \E N \in 1..MaxNodes : \E pv \in ParVecs(N) : \E ids \in [2..N -> NameIds] :
